@@ -612,12 +612,13 @@ theorem forUp_congr (b1 b2 : Nat → M σ Unit) (lo n : Nat) (h : ∀ i, lo ≤ 
     simp only [forUp]
     rw [h lo (Nat.le_refl _) (by omega), ih (lo + 1) (fun i h1 h2 => h i (by omega) (by omega))]
 
-/-- reverse = §15.4.4.8 for every receiver -/
-theorem reverse_refines (O : Ops σ) : reverse O = Spec.reverse O := by
+/-- reverse = §15.4.4.8 for every receiver that is an object; for a primitive receiver otto returns the primitive
+    instead of ToObject(this) (`reverse_sort_return_primitive_this`) -/
+theorem reverse_refines (O : Ops σ) (hthis : ∀ s, O.thisRaw s = .recv) : reverse O = Spec.reverse O := by
   have hcore : ∀ len, reverseCore O len = Spec.reverseCore O len := by
     intro len
     funext s
-    simp only [reverseCore, Spec.reverseCore]
+    simp only [reverseCore, Spec.reverseCore, hthis]
     have : forUp (fun lower => reverseStep O lower (len - lower - 1)) 0 (len / 2)
          = forUp (fun lower => Spec.reverseStep O lower (len - lower - 1)) 0 (len / 2) := by
       apply forUp_congr
@@ -640,6 +641,7 @@ def tOps : Ops (List (Option Val)) where
   isArr := fun _ => true
   lenRead := fun s => .ok () s
   conv := fun v s => .ok v s
+  thisRaw := fun _ => .recv
 
 /-! ## sort: the result is a permutation (§15.4.4.11, first bullet of the postcondition) -/
 
@@ -834,6 +836,7 @@ def wOps : Ops W where
   conv := fun v s => match v with
     | .obj id => .ok (.int 0) { s with log := [Val.obj id] :: s.log }
     | p => .ok p s
+  thisRaw := fun _ => .recv
 
 def E0 : Env := { pn := fun _ => .nan, ts := fun _ => [] }
 
@@ -845,6 +848,25 @@ def retOf {σ : Type} : Res σ Ret → Option Ret
 example : retOf (splice wOps E0 [.int 0] ⟨1, [some (.int 1)], [], true, false⟩) = some (.arr [some (.int 1)])
     ∧ retOf (Spec.splice wOps E0 [.int 0] ⟨1, [some (.int 1)], [], true, false⟩) = some (.arr []) := by decide
 
+
+
+/-- toString_forwards_arguments: [1,2].toString("-") -/
+example :
+    let E1 : Env := { pn := fun _ => .nan, ts := fun v => match v with | .int i => dec i.toNat | .str b => b | _ => [] }
+    retOf (toStringM wOps E1 [.str [45]] ⟨2, [some (.int 1), some (.int 2)], [], true, false⟩) = some (.val (.str [49, 45, 50]))
+    ∧ retOf (Spec.toStringS wOps E1 [.str [45]] ⟨2, [some (.int 1), some (.int 2)], [], true, false⟩) = some (.val (.str [49, 44, 50])) := by
+  decide
+
+/-- reverse_sort_return_primitive_this: Array.prototype.reverse.call(true) returns `true`, ES5 the Boolean object -/
+example : retOf (reverse { wOps with thisRaw := fun _ => .bool true } ⟨0, [], [], true, false⟩) = some (.val (.bool true))
+    ∧ retOf (Spec.reverse { wOps with thisRaw := fun _ => .bool true } ⟨0, [], [], true, false⟩) = some (.val .recv) := by decide
+
+/-- length_value_converted_once: a.length = obj converts obj once in otto, twice (ToUint32, ToNumber) in §15.4.5.1 3.c–d -/
+example :
+    let S : St := { o := { isArr := true, ext := true, props := [(.length, ⟨.int 3, true, false, false⟩)], proto := [] },
+                    script := [{ res := some (.int 1) }, { res := some (.int 1) }] }
+    (stateOf (stPut E0 .length (.obj 1) false S)).log = [[.obj 1]]
+    ∧ (stateOf (Spec.stPut E0 .length (.obj 1) false S)).log = [[.obj 1], [.obj 1]] := by decide
 
 /-- the four order cases that used to deviate now agree (same conversion log on both sides) -/
 example : (stateOf (join wOps E0 [.obj 1] ⟨1, [some .null], [], true, true⟩)).log = [[.obj 1], [.obj 9]]
